@@ -69,6 +69,31 @@ P('C18', theorems=['Tcs.C18_spec', 'Tcs.C18_no_id', 'Tcs.C18_noop'],
   oracles=[O.o_c18],
   plan={'quick': [hist('default', 220, LIBHTTP)], 'thorough': [hist('default', 4000, LIBHTTP)]})
 
+def grammar(n, per, **kw):
+    a = {'per': per}
+    a.update(kw)
+    return {'scen': 'grammar', 'args': a, 'n': n}
+
+P('C14', owned={'http.status.av', 'http.status.gcv', 'http.status.as', 'http.status.gs', 'http.headers.av', 'http.headers.gcv', 'http.headers.as', 'http.headers.gs', 'http.urgency.av', 'http.ctype.gcv', 'http.ctype.gs', 'http.body.gcv', 'http.body.gs'},
+  oracles=[O.o_c14_table],
+  aligned=[('mem:http', 'mem:lib', 'C14: every HTTP response decodes to exactly the library outcome of the same request on a twin storage'),
+           ('sql:http', 'sql:lib', 'C14: every HTTP response decodes to exactly the library outcome of the same request on a twin storage')],
+  plan={'quick': [hist('default', 200, 'mem:http,mem:lib,sql:http,sql:lib'), grammar(8, 120, wf='1', lists='none')],
+        'thorough': [hist('default', 3000, 'mem:http,mem:lib,sql:http,sql:lib'), grammar(64, 300, wf='1', lists='none')]})
+P('C15', owned={'http.status', 'noop.dump', 'calls.txns'},
+  oracles=[O.o_c15],
+  plan={'quick': [grammar(16, 160, lists='none,one'), grammar(2, 40, big='1', backends='mem', lists='none')],
+        'thorough': [grammar(160, 300, lists='none,one,many'), grammar(8, 60, big='1', backends='mem,sql', lists='none')]})
+P('C16', owned={'http.status', 'calls.txns', 'noop.dump'},
+  oracles=[O.o_c16],
+  plan={'quick': [grammar(24, 150, lists='one,many,empty,none')], 'thorough': [grammar(240, 300, lists='one,many,empty,none')]})
+P('C20', owned={'http.cache'},
+  oracles=[O.o_c20],
+  plan={'quick': [grammar(12, 160), hist('default', 40, 'mem:http,sql:http')], 'thorough': [grammar(120, 300), hist('default', 600, 'mem:http,sql:http')]})
+P('C06', owned={'gcv.payload', 'snap.payload', 'http.body.gcv', 'http.body.gs', 'gcv.ids', 'snap.vid'},
+  oracles=[O.o_c06],
+  plan={'quick': [hist('c06', 120, 'mem:http,sql:http,sqlre:lib')], 'thorough': [hist('c06', 1500, 'mem:http,sql:http,sqlre:lib')]})
+
 # ---------------------------------------------------------------------------------------------------
 
 def histogram(runs):
